@@ -20,14 +20,14 @@ import (
 // Stream "fullfail" (added after seeded changes C12-12 and C19-11): shutdown that overtakes the
 // start-up of the WHOLE assembly - server.FullAssembly + Services.Start, the way cmd/inbucket
 // runs it.  Either one listener cannot open (its address is held by the harness) and the error
-// arrives on Services.Notify(), or everything is healthy and shutdown is requested right after
-// Services.Start has returned, before the services report ready.  main.go's sequence follows:
+// arrives on Services.Notify(), or everything is healthy and shutdown is requested before
+// Services.Start is called or right after it has returned, before the services report ready.  main.go's sequence follows:
 // cancel, SMTP Drain, POP3 Drain, retention Join - each must return (no session was ever open) -
 // and afterwards no listener of the assembly may still greet a new client.
 // pkg/server/web keeps its server in package variables, so a process can hold one assembly only:
 // a child runs either this scenario or the ordinary "full" one (by batch index), never both.
 func runFullFail(c *fw.Ctx, idx int, r *fw.Rand) {
-	mode := []string{"pop3-in-use", "smtp-in-use", "cancel-before-ready", "web-in-use", "cancel-at-once"}[(idx/2)%5]
+	mode := []string{"cancelled-before-start", "pop3-in-use", "cancel-at-once", "smtp-in-use", "cancel-before-ready", "web-in-use"}[(idx/2)%6]
 	conf := sut.DefaultConf()
 	conf.Lua = config.Lua{Path: ""}
 	conf.Web.UIDir = c.TempDir("c19ui")
@@ -87,9 +87,15 @@ func runFullFail(c *fw.Ctx, idx int, r *fw.Rand) {
 	defer cancel()
 	wd := 20 * time.Second * time.Duration(c.Slow)
 	ready := make(chan struct{})
+	if mode == "cancelled-before-start" {
+		// the limit case of "the signal was already queued when Start returned": the context
+		// handed to Services.Start is cancelled already.  Unlike the two modes that cancel right
+		// after Start, nothing here depends on how far the services got in between.
+		cancel()
+	}
 	svc.Start(ctx, func() { close(ready) })
 	switch mode {
-	case "cancel-at-once":
+	case "cancel-at-once", "cancelled-before-start":
 	case "cancel-before-ready":
 		time.Sleep(time.Duration(r.Intn(400)) * time.Microsecond) // scheduling only
 	default:
@@ -108,6 +114,11 @@ func runFullFail(c *fw.Ctx, idx int, r *fw.Rand) {
 		}
 	}
 	cancel()
+	// main.go logs, starts its forced-exit timer and only then calls Drain: give the services that
+	// are still starting that moment too (scheduling only; the cancel-before-ready mode does without)
+	if mode != "cancel-before-ready" {
+		time.Sleep(30 * time.Millisecond)
+	}
 	for _, st := range []struct {
 		name string
 		f    func()
@@ -116,7 +127,9 @@ func runFullFail(c *fw.Ctx, idx int, r *fw.Rand) {
 		// more is decided at once (deadlock evidence), without depending on a reproduction.
 		if ok, dump := c.Within(wd/time.Duration(c.Slow), st.f); !ok {
 			hangsSeen++
-			c.Hang("full-shutdown-after-early-stop:"+st.name, fmt.Sprintf("%s: shutdown overtook the start-up of the full assembly; %s does not return although no session was ever open", desc, st.name), dump)
+			// (one key for all three steps: which of them is the first not to return depends on
+			// how far each service got, and a confirmation run must not hinge on that)
+			c.Hang("full-shutdown-after-early-stop", fmt.Sprintf("%s: shutdown overtook the start-up of the full assembly; %s does not return although no session was ever open", desc, st.name), dump)
 			return
 		}
 	}
